@@ -40,7 +40,10 @@ Opt(d) == CASE d = "req_a3_opt_a2" -> [a \in {"mail"} |-> AnyVal]
             [] OTHER -> <<>>
 
 Identities == {i \in [Attrs -> SUBSET Vals] : i["mail"] \in {{}, {"v1"}} /\ i["title"] \in {{}, {"v1"}} /\ i["givenName"] # {"v2"}}
-Scn == [ident : Identities, upper : BOOLEAN, policy : Policies, decl : Decls, hasCat : BOOLEAN, failOnMissing : BOOLEAN]
+\* the server is long-lived and serves many providers with one compiled policy: prev is the provider it served just before
+\* (with the full identity), if any.  What it releases now is a function of the present request alone.
+Prev == {[served |-> FALSE, decl |-> "none", hasCat |-> FALSE]} \cup [served : {TRUE}, decl : Decls, hasCat : BOOLEAN]
+Scn == [ident : Identities, upper : BOOLEAN, policy : Policies, decl : Decls, hasCat : BOOLEAN, failOnMissing : BOOLEAN, prev : Prev]
 
 VARIABLES scn, pc, ava, outcome
 vars == <<scn, pc, ava, outcome>>
